@@ -181,13 +181,13 @@ def _structure_job(args):
                     Hu[0, 1:] *= 2.0 ** e_
                     herm_measure(rec, "underflow-subcolumn", {"structure": "integer Hermitian, first off-diagonal row/column scaled by 2^%d" % e_, "n": n}, Hu, spec(Hu))
                 # only the pivot entry (1,0) / (0,1) is that small, the rest of the first row / column is O(1)
-                for e_ in (-505, -520, -530, -536, -540, -545, -1074):
+                for e_ in (-20, -27, -30, -34, -40, -46, -60, -505, -520, -530, -536, -540, -545, -1074):
                     Hp = Hh.copy()
                     if not np.any(Hp[1, 0]):
                         Hp[1, 0] = [1.0, -2.0, 1.0, 3.0]
                     Hp[1, 0] *= 2.0 ** e_
                     Hp[0, 1] = Hp[1, 0] * [1, -1, -1, -1]
-                    herm_measure(rec, "underflow-pivot", {"structure": "integer Hermitian, entries (1,0), (0,1) scaled by 2^%d" % e_, "n": n}, Hp, spec(Hp))
+                    herm_measure(rec, "underflow-pivot" if e_ < -100 else "small-pivot", {"structure": "integer Hermitian, entries (1,0), (0,1) scaled by 2^%d" % e_, "n": n}, Hp, spec(Hp))
             v = rng.standard_normal((n, 1, 4))
             R1 = omul(v, oherm(v))
             herm_measure(rec, "low-rank", {"structure": "rank one", "v": v.tolist()}, R1, spec(R1))
@@ -235,7 +235,17 @@ def _structure_job(args):
         Dt[0, 0, 1:] = [1e-3 * np.max(np.abs(Hh)), 0, 0]     # a small (1e-3 relative) but not rounding-level diagonal defect
         for fn, f in (("tridiagonalize", L.tridiag.tridiagonalize), ("quaternion_eigendecomposition", L.eigen.quaternion_eigendecomposition),
                       ("quaternion_eigenvalues", L.eigen.quaternion_eigenvalues), ("quaternion_eigenvectors", L.eigen.quaternion_eigenvectors)):
-            for what, M in (("non-hermitian", N), ("non-square", R), ("non-real-diagonal", Dg), ("slightly-non-real-diagonal", Dt)):
+            # the defect confined to ONE of the four components (a guard that compares three of them misses the fourth)
+            per = []
+            for c_ in range(4):
+                Nc = Hh.copy()
+                Nc[0, n - 1, c_] += 0.05 * np.max(np.abs(Hh))
+                per.append(("non-hermitian:component-%s" % "wxyz"[c_], Nc))
+                if c_:
+                    Dc = Hh.copy()
+                    Dc[n - 1, n - 1, c_] += 0.3 * np.max(np.abs(Hh))
+                    per.append(("non-real-diagonal:component-%s" % "wxyz"[c_], Dc))
+            for what, M in [("non-hermitian", N), ("non-square", R), ("non-real-diagonal", Dg), ("slightly-non-real-diagonal", Dt)] + per:
                 t = rec.new(fn, "guard:" + what, {"n": n, "A": M.tolist()})
                 try:
                     import contextlib
